@@ -39,8 +39,15 @@ def _regions(tier):
     small = G.sizes(0.3, 25.0)
     leaf = G.maskable(sz, max_ratio=30.0)
     near_leaf = G.maskable(small, cmode='near', max_ratio=8.0)
-    return st.one_of(leaf, leaf, leaf, G.grid_polygon(),
-                     G.compound(near_leaf, max_depth=3))
+    # a few large grids (more than 256 x 256 pixels) in every tier: what
+    # to_mask does for big masks is part of it (rows are sub-sampled, CAP)
+    large = G.maskable(G.sizes(140.0, 320.0), cmode='near', max_ratio=6.0)
+    usual = st.one_of(leaf, leaf, leaf, G.grid_polygon(),
+                      G.compound(near_leaf, max_depth=3))
+    # (rare in the quick tier - each costs seconds; the thorough tier's sizes
+    # reach 300 px anyway)
+    return st.integers(0, 399 if tier == 'quick' else 99).flatmap(
+        lambda k: large if k == 0 else usual)
 
 
 def sample_reference(rs, bbox, n, rows):
@@ -89,13 +96,19 @@ class Masks(Relation):
         box = (bb.ixmin, bb.ixmax, bb.iymin, bb.iymax)
         ny, nx = bb.shape
         ctx.label(cls, G.angle_family(rs))
-        if ny * nx > 400 * 400:
+        if ny * nx > 700 * 700:
             ctx.count('outside_domain_huge_mask')
             return
         compound_like = cls == 'CompoundPixelRegion' or 'Annulus' in cls
         modes = [('center', None)]
         if not compound_like:
             modes += [('subpixels', n) for n in spec['subpixels']]
+        # grids of more than 256 x 256 pixels: centre mode and ONE small
+        # sub-sampling factor, no repeated calls (seconds per mask otherwise)
+        large_grid = ny * nx > 256 * 256
+        if large_grid:
+            ctx.label('large-grid')
+            modes = modes[:1] + [(m, min(n, 3)) for m, n in modes[1:2]]
         center_data = None
         nt_any = False
         from vf.fingerprint import fp
@@ -113,11 +126,12 @@ class Masks(Relation):
             # a returned mask is the caller's to edit: doing so must not
             # reach the mask that the next call returns
             keep = data.copy()
-            again = reg.to_mask(mode) if mode == 'center' else reg.to_mask(
-                mode, n)
+            again = mask if large_grid else (
+                reg.to_mask(mode) if mode == 'center' else reg.to_mask(mode, n))
             ctx.check(np.array_equal(np.asarray(again.data), data),
                       f'{tag} | a second to_mask call gives a different mask')
-            if again.data.size and again.data.flags.writeable:
+            if (not large_grid and again.data.size
+                    and again.data.flags.writeable):
                 again.data[...] = -7.25
                 third = reg.to_mask(mode) if mode == 'center' else reg.to_mask(
                     mode, n)
